@@ -230,9 +230,10 @@ class Ctx:
         os.makedirs(BUILD, exist_ok=True)
         with open(os.path.join(BUILD, "coq.lock"), "w") as lk:
             fcntl.flock(lk, fcntl.LOCK_EX)
-            ok, log = coq_make(targets, timeout, force=[t for t in targets if t.startswith("Props/")])
-        self.checker_cmd = ("coq_makefile -f _CoqProject -o Makefile.coq && make -f Makefile.coq %s "
-                            "(coqc 8.16.1, full .vo build)" % " ".join(targets))
+            ok, log = coq_make(targets, timeout, force=[t for t in targets if t.startswith("Props/")], tag=self.prop)
+        self.checker_cmd = ("coq_makefile -f _CoqProject.%s -o Makefile.%s && make -f Makefile.%s %s "
+                            "(coqc 8.16.1, full .vo build of the Require-closure)" % (self.prop, self.prop, self.prop,
+                                                                                     " ".join(targets)))
         for t in targets:
             if not t.startswith("Props/"):
                 continue
@@ -457,38 +458,51 @@ def validate_evidence(path):
 # ----------------------------------------------------------------------------
 # coq_makefile driver
 # ----------------------------------------------------------------------------
-def coq_project():
-    vs = []
-    for d, _, fs in os.walk(COQ):
-        for f in fs:
-            if f.endswith(".v"):
-                vs.append(os.path.relpath(os.path.join(d, f), COQ))
-    vs.sort()
+def coq_closure(targets):
+    """Source files (relative to coq/) in the Require-closure of the given .vo targets.  Only files of that
+    closure enter the generated project, so one property's build never depends on another property's files."""
+    todo = [t[:-1] if t.endswith(".vo") else t for t in targets]
+    seen = []
+    while todo:
+        f = todo.pop()
+        if f in seen or not os.path.exists(os.path.join(COQ, f)):
+            continue
+        seen.append(f)
+        txt = re.sub(r"\(\*.*?\*\)", "", open(os.path.join(COQ, f)).read(), flags=re.S)
+        for m in re.finditer(r"\bWebob\.((?:\w+\.)*\w+)", txt):
+            cand = m.group(1).replace(".", "/") + ".v"
+            if os.path.exists(os.path.join(COQ, cand)):
+                todo.append(cand)
+    return sorted(seen)
+
+
+def coq_project(targets, tag):
+    vs = coq_closure(targets)
     txt = "-Q . Webob\n-arg -w -arg -all\n" + "\n".join(vs) + "\n"
-    p = os.path.join(COQ, "_CoqProject")
+    p = os.path.join(COQ, "_CoqProject." + tag)
+    mk = "Makefile." + tag
     old = open(p).read() if os.path.exists(p) else None
-    if old != txt:
+    if old != txt or not os.path.exists(os.path.join(COQ, mk)):
         open(p, "w").write(txt)
-        subprocess.run(["coq_makefile", "-f", "_CoqProject", "-o", "Makefile.coq"], cwd=COQ,
+        subprocess.run(["coq_makefile", "-f", "_CoqProject." + tag, "-o", mk], cwd=COQ,
                        capture_output=True, text=True, check=True)
-    elif not os.path.exists(os.path.join(COQ, "Makefile.coq")):
-        subprocess.run(["coq_makefile", "-f", "_CoqProject", "-o", "Makefile.coq"], cwd=COQ,
-                       capture_output=True, text=True, check=True)
+    return mk
 
 
-def coq_make(targets, timeout=1500, force=()):
-    coq_project()
+def coq_make(targets, timeout=1500, force=(), tag=None):
+    tag = tag or re.sub(r"\W", "_", "_".join(sorted(os.path.basename(t)[:-3] for t in targets)))[:40]
+    mk = coq_project(targets, tag)
     for t in force:
         for ext in ("", "k", "s"):
             try:
                 os.remove(os.path.join(COQ, t + ext) if ext == "" else os.path.join(COQ, t[:-2] + "vo" + ext))
             except OSError:
                 pass
-    cmd = ["timeout", str(timeout), "make", "-f", "Makefile.coq", "-j%d" % NPROC, "-k", "-Otarget"] + list(targets)
+    cmd = ["timeout", str(timeout), "make", "-f", mk, "-j%d" % NPROC, "-k", "-Otarget"] + list(targets)
     p = subprocess.run(cmd, cwd=COQ, capture_output=True, text=True)
     log = p.stdout + "\n" + p.stderr
     os.makedirs(BUILD, exist_ok=True)
-    with open(os.path.join(BUILD, "last_make.log"), "w") as f:
+    with open(os.path.join(BUILD, "last_make_%s.log" % tag), "w") as f:
         f.write(log)
     return p.returncode == 0, log
 
